@@ -274,7 +274,18 @@ namespace detail
 	{
 		GLM_STATIC_ASSERT(std::numeric_limits<T>::is_integer, "'bitfieldExtract' only accept integer inputs");
 
-		return (Value >> static_cast<T>(Offset)) & static_cast<T>(detail::mask(Bits));
+		// The field is isolated in the unsigned type (the mask must be as wide as T, and a logical shift is needed),
+		// then sign-extended from its top bit when T is signed, as GLSL specifies.
+		typedef typename detail::make_unsigned<T>::type U;
+		if(Bits <= 0)
+			return vec<L, T, Q>(0);
+		vec<L, U, Q> Field((vec<L, U, Q>(Value) >> static_cast<U>(Offset)) & static_cast<U>(detail::mask(static_cast<U>(Bits))));
+		if(std::numeric_limits<T>::is_signed)
+		{
+			U const SignBit = static_cast<U>(static_cast<U>(1) << static_cast<U>(Bits - 1));
+			Field = (Field ^ SignBit) - SignBit;
+		}
+		return vec<L, T, Q>(Field);
 	}
 
 	// bitfieldInsert
